@@ -145,7 +145,13 @@ def build(job):
         body = body.encode(job['as_bytes'])       # the same document handed over as bytes
     try:
         t = cls(body, **kw)
-        out = t(v=1, lst=[1, 2], translate=lambda m, **k: '[%s]' % m)
+        if job.get('then'):
+            # a long-lived object: rendered once, then re-configured and given a new document
+            t(v=1, lst=[1, 2], title='Hello')
+            for k, v in job['then'].get('set', {}).items():
+                setattr(t, k, v)
+            t.write(job['then']['write'])
+        out = t(v=1, lst=[1, 2], title='Hello', translate=lambda m, **k: '[%s]' % m)
         if isinstance(out, bytes):
             out = out.decode('utf-8')
         return out
